@@ -46,10 +46,10 @@ class Agg:
 
 
 class LRef:
-    __slots__ = ("fid", "place")
+    __slots__ = ("fid", "place", "mut")
 
-    def __init__(self, fid, place):
-        self.fid, self.place = fid, place
+    def __init__(self, fid, place, mut=False):
+        self.fid, self.place, self.mut = fid, place, mut
 
     def __repr__(self):
         return "LRef(%s,%s)" % (self.fid, self.place)
@@ -90,11 +90,11 @@ class IterL:
 
 
 class FMap:
-    """`iter.filter_map(closure)` (lazy)"""
-    __slots__ = ("it", "closure")
+    """`iter.filter_map(closure)` / `iter.map(closure)` (lazy)"""
+    __slots__ = ("it", "closure", "plain")
 
-    def __init__(self, it, closure):
-        self.it, self.closure = it, closure
+    def __init__(self, it, closure, plain=False):
+        self.it, self.closure, self.plain = it, closure, plain
 
 
 class Uninit:
@@ -463,7 +463,7 @@ class Executor:
         if isinstance(v, Opaque):
             t = (v.ty or ty or "").strip()
             if t == "bool":
-                return self.bvar(self.fresh_name("opaque-bool(%s)" % (v.origin[0] if isinstance(v.origin, tuple) else v.origin)))
+                return self.bvar(self.fresh_name("opaque-bool(%s)" % self._origin_str(v.origin)[:120]))
             return self.ivar(self.fresh_name("opaque-int(%s)" % (v.origin[0] if isinstance(v.origin, tuple) else v.origin)))
         if isinstance(v, LRef):
             return self.scalar_of(state, self.read_lref(state, v), ty)
@@ -606,6 +606,9 @@ class Executor:
         m = re.fullmatch(r'"((?:[^"\\]|\\.)*)"', s)
         if m:
             return Agg("str", None, None, [], extra=m.group(1))
+        m = re.fullmatch(r'b"((?:[^"\\]|\\.)*)"', s)
+        if m:
+            return Agg("bytes", None, None, [], extra=m.group(1))
         m = re.fullmatch(r"([\w:<>]+)::(\w+)", s)
         if m and self.ti.variants(m.group(1)) and m.group(2) in self.ti.variants(m.group(1)):
             return Agg("adt", head_of(m.group(1)), m.group(2), [])
@@ -705,9 +708,11 @@ class Executor:
                 # reference into a local reached through another reference
                 tgt = self.resolve_local_place(state, frame, place)
                 if tgt is not None:
+                    if len(rv) > 2 and isinstance(tgt, LRef) and not tgt.mut:
+                        tgt = LRef(tgt.fid, tgt.place, True)
                     return tgt
                 return v
-            return LRef(frame.fid, place)
+            return LRef(frame.fid, place, len(rv) > 2)
         if k == "discriminant":
             v = self.read_place(state, frame, rv[1])
             return self.discriminant(state, v, self.place_type(frame, rv[1]))
@@ -810,6 +815,8 @@ class Executor:
         if isinstance(v, Agg) and v.kind in ("array", "tuple"):
             return len(v.fields)
         if isinstance(v, Sym):
+            if isinstance(state.mem.get(v.path), VecL):
+                return len(state.mem[v.path].items)
             return self.ivar("len(%s)" % pstr(v.path), 0, self.slice_bound)
         return self.ivar(self.fresh_name("len-opaque"), 0, self.slice_bound)
 
@@ -829,6 +836,8 @@ class Executor:
         if isinstance(v, Agg):
             if v.kind == "str":
                 return "str:" + (v.extra or "")
+            if v.kind == "bytes":
+                return "bytes:" + (v.extra or "")
             return "agg:%s%s(%s)" % (v.name or v.kind, "::" + v.variant if v.variant else "", ",".join(self.summ(state, f, depth + 1) for f in v.fields))
         if isinstance(v, Opaque):
             return "opaque:" + self._origin_str(v.origin)
@@ -867,8 +876,12 @@ class Executor:
             return ("model", "Iterator::adaptor::" + norm.rsplit("::", 1)[1])
         if re.match(r"^Iterator::\w+::filter_map$", norm):
             return ("model", "Iterator::adaptor::filter_map")
-        if norm == "Iterator::FilterMap::collect":
+        if re.match(r"^Iterator::\w+::map$", norm):
+            return ("model", "Iterator::adaptor::map")
+        if norm in ("Iterator::FilterMap::collect", "Iterator::Map::collect"):
             return ("model", "Iterator::FilterMap::collect")
+        if norm in ("RepAsIteratorExt::Map::quote_into_iter", "RepAsIteratorExt::FilterMap::quote_into_iter", "Map::quote_into_iter", "FilterMap::quote_into_iter"):
+            return ("model", "RepAsIteratorExt::Vec::quote_into_iter")
         if re.match(r"^Index::(Vec|slice)::index$", norm):
             return ("model", "Index::Vec::index")
         if re.match(r"^IntoIterator::\w+::into_iter$", norm) or re.match(r"^\w+::(iter|iter_mut)$", norm):
@@ -898,8 +911,10 @@ class Executor:
         return ("opaque", norm)
 
     # ---- main loop ----------------------------------------------------------------------------------
-    def run(self, fn, arg_values, pre=()):
+    def run(self, fn, arg_values, pre=(), mem=None):
         st = State()
+        if mem:
+            st.mem.update(mem)
         fr = Frame(0, fn, None, None)
         st.next_fid = 1
         for (n, ty), v in zip(fn.params, arg_values):
@@ -986,6 +1001,10 @@ class Executor:
                 if not state.frames:
                     self.finish(state, "return", ret)
                     return
+                if getattr(self, "trace_returns", None):
+                    short = self.qual.get(frame.fn.name, frame.fn.name)
+                    if short in self.trace_returns:
+                        state.events.append(("ret:" + short, [self.summ(state, ret)]))
                 caller = state.frames[-1]
                 if frame.dest is not None:
                     self.write_place(state, caller, frame.dest, ret)
@@ -1082,15 +1101,50 @@ class Executor:
             return MODELS[target](self, state, frame, dest, args, ret_block, work, callee)
         # opaque
         self.stats["opaque_calls"].add(normalize_callee(callee))
+        for a in args:
+            if isinstance(a, LRef) and a.mut:
+                self.havoc(state, a, normalize_callee(callee))
         dty = self.place_type(frame, dest)
         val = Opaque(("call", normalize_callee(callee), tuple(self.summ(state, a)[:120] for a in args)), dty)
-        if dty and dty.strip() == "bool":
+        if not args and getattr(self, "unique_streams", False) and normalize_callee(callee) == "TokenStream::new":
+            # token streams as objects: each `TokenStream::new()` gets an identity, so that where a stream ends up can be followed
+            self.fresh += 1
+            val = Opaque(("call", "TokenStream::new", ("#%d" % self.fresh,)), dty)
+        if dty and dty.strip() == "bool" and short in getattr(self, "pure_fns", ()):
+            # an uninterpreted predicate of its arguments: the same call answers the same
+            val = self.bvar("pure:%s(%s)" % (short, ",".join(self.summ(state, a)[:80] for a in args)))
+        elif dty and dty.strip() == "bool":
             val = self.bvar(self.fresh_name("ret(%s)" % normalize_callee(callee)))
         elif dty and dty.strip() == "()":
             val = Agg("tuple", None, None, [])
         self.write_place(state, frame, dest, val)
         frame.block = ret_block
         return "cont"
+
+    def havoc(self, state, ref, why):
+        """a callee the executor does not look into received `&mut local`: whatever scalar the local holds may have changed"""
+        try:
+            v = self.read_lref(state, ref)
+        except Inconclusive:
+            return
+        nv = self._havoc_value(v, why, 0)
+        if nv is not v:
+            self.stats.setdefault("havoc", set()).add(why)
+            self.write_place(state, self.frame_by_id(state, ref.fid), ref.place, nv)
+
+    def _havoc_value(self, v, why, depth):
+        if isinstance(v, bool) or (z3.is_expr(v) and z3.is_bool(v)):
+            return self.bvar(self.fresh_name("havoc-bool(%s)" % why))
+        if isinstance(v, int) or (z3.is_expr(v) and z3.is_int(v)):
+            return self.ivar(self.fresh_name("havoc-int(%s)" % why))
+        if isinstance(v, Agg) and v.kind in ("struct", "tuple", "adt") and depth < 3:
+            nf = [self._havoc_value(f, why, depth + 1) for f in v.fields]
+            if any(a is not b for a, b in zip(nf, v.fields)):
+                return Agg(v.kind, v.name, v.variant, nf, extra=getattr(v, "extra", None))
+            return v
+        if isinstance(v, VecL):
+            return Opaque(("havoc-vec", why), None)
+        return v
 
     def push_frame(self, state, fn, args, dest, ret_block):
         fr = Frame(state.next_fid, fn, dest, ret_block)
@@ -1311,7 +1365,23 @@ def _fork_bool(ex, state, frame, dest, cond, ret_block, work):
 
 
 def _val(ex, state, v):
-    return ex.read_lref(state, v) if isinstance(v, LRef) else v
+    v = ex.read_lref(state, v) if isinstance(v, LRef) else v
+    if isinstance(v, Sym) and isinstance(state.mem.get(v.path), VecL):
+        return state.mem[v.path]  # a vector living behind a symbolic reference (preset by the caller of run())
+    return v
+
+
+def _vec_target(ex, state, r):
+    """-> (VecL, writer) for the vector behind reference r (local place or preset symbolic memory), or (None, None)"""
+    if isinstance(r, LRef):
+        v = ex.read_lref(state, r)
+        if isinstance(v, VecL):
+            return v, (lambda st, nv: ex.write_place(st, ex.frame_by_id(st, r.fid), r.place, nv))
+        r = v
+    if isinstance(r, Sym) and isinstance(state.mem.get(r.path), VecL):
+        path = r.path
+        return state.mem[path], (lambda st, nv: st.mem.__setitem__(path, nv))
+    return None, None
 
 
 def _is_variant(ex, state, v, ty_variants, variant):
@@ -1395,6 +1465,9 @@ def m_branch_result(ex, state, frame, dest, args, ret_block, work, callee):
     if isinstance(v, Sym):
         v = Sym(v.path, "Result<?,?>")
     elif isinstance(v, Opaque):
+        if getattr(ex, "opaque_ok_only", False):
+            # stated cut: calls the executor does not look into are assumed to succeed (their error paths leave the function at once)
+            return _ret(ex, state, frame, dest, Agg("adt", "ControlFlow", "Continue", [Opaque(("ok-of", v.origin), None)]), ret_block)
         v = Opaque(v.origin, "Result<?,?>")
     else:
         raise Inconclusive("branch on %r" % (v,))
@@ -1451,12 +1524,74 @@ def m_vec_new(ex, state, frame, dest, args, ret_block, work, callee):
 
 @model("Vec::push")
 def m_vec_push(ex, state, frame, dest, args, ret_block, work, callee):
-    r = args[0]
-    if isinstance(r, LRef):
-        v = ex.read_lref(state, r)
-        if isinstance(v, VecL):
-            ex.write_place(state, ex.frame_by_id(state, r.fid), r.place, VecL(v.items + [args[1]]))
+    v, wr = _vec_target(ex, state, args[0])
+    if v is not None:
+        wr(state, VecL(v.items + [args[1]]))
     return _ret(ex, state, frame, dest, Agg("tuple", None, None, []), ret_block)
+
+
+@model("Vec::swap_remove", "Vec::remove")
+def m_vec_remove(ex, state, frame, dest, args, ret_block, work, callee):
+    v, wr = _vec_target(ex, state, args[0])
+    i = args[1]
+    if v is None:
+        # a vector the executor does not hold: the call stays opaque (recorded by do_call when traced)
+        return _ret(ex, state, frame, dest, Opaque(("call", normalize_callee(callee), tuple(ex.summ(state, a)[:120] for a in args)), None), ret_block)
+    if not isinstance(i, int):
+        raise Inconclusive("%s with a symbolic index" % normalize_callee(callee))
+    if i >= len(v.items):
+        ex.finish(state, "panic", normalize_callee(callee) + ": index out of bounds")
+        return "done"
+    items = list(v.items)
+    out = items[i]
+    if normalize_callee(callee).endswith("swap_remove"):
+        items[i] = items[-1]
+        items.pop()
+    else:
+        del items[i]
+    wr(state, VecL(items))
+    return _ret(ex, state, frame, dest, out, ret_block)
+
+
+@model("Vec::retain", "Vec::retain_mut")
+def m_vec_retain(ex, state, frame, dest, args, ret_block, work, callee):
+    v, wr = _vec_target(ex, state, args[0])
+    if v is None:
+        # a vector the executor does not hold: the call stays opaque (recorded by do_call when traced)
+        return _ret(ex, state, frame, dest, Agg("tuple", None, None, []), ret_block)
+    cur = [(state, [])]
+    for e in v.items:
+        nxt = []
+        for st, kept in cur:
+            for pc, mem, val, evs in ex.eval_closure_all(st, args[1], [e]):
+                base = st.clone()
+                base.pc = list(pc)
+                base.mem = dict(mem)
+                base.events = base.events + list(evs)
+                if isinstance(val, bool):
+                    nxt.append((base, kept + [e] if val else kept))
+                    continue
+                if not z3.is_expr(val):
+                    raise Inconclusive("retain closure returned %r" % (val,))
+                for keep in (True, False):
+                    c = val if keep else z3.Not(val)
+                    if ex.feasible(base, c):
+                        st2 = base.clone()
+                        st2.pc.append(c)
+                        nxt.append((st2, kept + [e] if keep else kept))
+        cur = nxt
+    if not cur:
+        raise Inconclusive("retain: no feasible alternative")
+    ex.stats["forks"] += len(cur) - 1
+    # re-resolve the writer per state (mem is per state)
+    for st, kept in cur:
+        _, wr2 = _vec_target(ex, st, args[0])
+        wr2(st, VecL(kept))
+        fr = st.frames[-1]
+        ex.write_place(st, fr, dest, Agg("tuple", None, None, []))
+        fr.block = ret_block
+        work.append(st)
+    return "done"
 
 
 @model("Vec::len", "slice::len", "Punctuated::len")
@@ -1531,13 +1666,16 @@ def iter_next_alts(ex, state, it):
             st, inner = todo.pop()
             for st1, opt, inner1 in iter_next_alts(ex, st, inner):
                 if opt.variant == "None":
-                    alts.append((st1, opt, FMap(inner1, it.closure)))
+                    alts.append((st1, opt, FMap(inner1, it.closure, it.plain)))
                     continue
                 for pc, mem, val, evs in ex.eval_closure_all(st1, it.closure, [opt.fields[0]]):
                     st2 = st1.clone()
                     st2.pc = list(pc)
                     st2.mem = dict(mem)
                     st2.events = st2.events + list(evs)
+                    if it.plain:
+                        alts.append((st2, Agg("adt", "Option", "Some", [val]), FMap(inner1, it.closure, True)))
+                        continue
                     if not (isinstance(val, Agg) and val.kind == "adt" and val.name == "Option"):
                         raise Inconclusive("filter_map closure returned %r" % (val,))
                     if val.variant == "Some":
@@ -1623,6 +1761,8 @@ def m_quote_into_iter(ex, state, frame, dest, args, ret_block, work, callee):
         it = IterL(v.items)
     elif isinstance(v, Sym):
         it = IterS(v)
+    elif isinstance(v, (FMap, IterL, IterS)):
+        it = v
     else:
         it = IterL([])
     return _ret(ex, state, frame, dest, Agg("tuple", None, None, [it, Opaque(("HasIterator",), None)]), ret_block)
@@ -1646,53 +1786,42 @@ def m_iter_adaptor(ex, state, frame, dest, args, ret_block, work, callee):
     raise Inconclusive("iterator adaptor %s on %r" % (which, it))
 
 
-@model("Iterator::adaptor::filter_map")
+@model("Iterator::adaptor::filter_map", "Iterator::adaptor::map")
 def m_filter_map(ex, state, frame, dest, args, ret_block, work, callee):
     it = _val(ex, state, args[0])
-    if not isinstance(it, (IterS, IterL)):
-        raise Inconclusive("filter_map over %r" % (it,))
-    return _ret(ex, state, frame, dest, FMap(it, args[1]), ret_block)
+    if not isinstance(it, (IterS, IterL, FMap)):
+        raise Inconclusive("filter_map / map over %r" % (it,))
+    return _ret(ex, state, frame, dest, FMap(it, args[1], normalize_callee(callee).endswith("::map")), ret_block)
 
 
 @model("Iterator::FilterMap::collect")
 def m_filter_map_collect(ex, state, frame, dest, args, ret_block, work, callee):
     fm = _val(ex, state, args[0])
-    if not isinstance(fm, FMap):
+    dty = (ex.place_type(frame, dest) or "").strip()
+    if not re.match(r"^(std::vec::|alloc::vec::)?Vec<", dty):
+        # collecting into something else (Result<Vec<_>, _>, a token stream, ...): not modelled, the value stays opaque
+        return _ret(ex, state, frame, dest, Opaque(("call", normalize_callee(callee), tuple(ex.summ(state, a)[:120] for a in args)), dty or None), ret_block)
+    if not isinstance(fm, (FMap, IterL, IterS)):
         raise Inconclusive("collect of %r" % (fm,))
-    it = fm.it
-    if isinstance(it, IterL):
-        elems_by_len = [(None, list(it.items[it.idx:]))]
-    else:
-        n = ex.length(state, it.base)
-        elems_by_len = []
-        for k in range(it.idx, ex.slice_bound + 1):
-            c = (n == k) if not isinstance(n, int) else z3.BoolVal(n == k)
-            if ex.feasible(state, c):
-                elems_by_len.append((c, [Sym(it.base.path + (("idx", i),), elem_ty(it.base.ty)) for i in range(it.idx, k)]))
-    alts = []
-    for c, elems in elems_by_len:
-        st0 = state.clone()
-        if c is not None:
-            st0.pc.append(c)
-        cur = [(st0, [])]
-        for e in elems:
-            nxt = []
-            for st, items in cur:
-                for pc, mem, val, evs in ex.eval_closure_all(st, fm.closure, [e]):
-                    st2 = st.clone()
-                    st2.pc = list(pc)
-                    st2.mem = dict(mem)
-                    st2.events = st2.events + list(evs)
-                    if isinstance(val, Agg) and val.kind == "adt" and val.name == "Option":
-                        nxt.append((st2, items + [val.fields[0]] if val.variant == "Some" else items))
-                    else:
-                        raise Inconclusive("filter_map closure returned %r" % (val,))
-            cur = nxt
-        alts += cur
-    if not alts:
-        raise Inconclusive("filter_map().collect(): no feasible alternative")
-    ex.stats["forks"] += len(alts) - 1
-    for st, items in alts:
+    cur = [(state.clone(), [], fm)]
+    done = []
+    for step in range(ex.slice_bound + 6):
+        nxt = []
+        for st, items, itv in cur:
+            for st1, opt, it1 in iter_next_alts(ex, st, itv):
+                if opt.variant == "None":
+                    done.append((st1, items))
+                else:
+                    nxt.append((st1, items + [opt.fields[0]], it1))
+        cur = nxt
+        if not cur:
+            break
+    if cur:
+        raise Inconclusive("collect(): iterator longer than the bound")
+    if not done:
+        raise Inconclusive("collect(): no feasible alternative")
+    ex.stats["forks"] += len(done) - 1
+    for st, items in done:
         fr = st.frames[-1]
         ex.write_place(st, fr, dest, VecL(items))
         fr.block = ret_block
